@@ -1577,7 +1577,7 @@ V("C07-lock-walk-joins-errors","C07",EN+"inhume.go","""			if firstErr == nil {
 			continue
 """,expect="silent")
 V("C14-revert-fix-configured-mode-not-applied","C14",SH+"control.go","""	if m := s.GetMode(); m != mode.ReadWrite {
-		if err := s.SetMode(m); err != nil {
+		if err := s.applyConfiguredMode(m); err != nil {
 			return fmt.Errorf("could not set configured mode %s: %w", m, err)
 		}
 	}
@@ -1592,13 +1592,13 @@ V("C14-revert-fix-cache-flushes-during-init","C14",SH+"control.go","""		if s.Get
 			}
 		}
 ""","",rule="C14.R5")
-V("C14-configured-mode-error-ignored","C14",SH+"control.go","""		if err := s.SetMode(m); err != nil {
+V("C14-configured-mode-error-ignored","C14",SH+"control.go","""		if err := s.applyConfiguredMode(m); err != nil {
 			return fmt.Errorf("could not set configured mode %s: %w", m, err)
 		}
-""","""		_ = s.SetMode(m)
+""","""		_ = s.applyConfiguredMode(m)
 """,rule="C14.R5")
 V("C14-configured-mode-applied-eq-form","C14",SH+"control.go","""	if m := s.GetMode(); m != mode.ReadWrite {
-		if err := s.SetMode(m); err != nil {
+		if err := s.applyConfiguredMode(m); err != nil {
 			return fmt.Errorf("could not set configured mode %s: %w", m, err)
 		}
 	}
@@ -1607,11 +1607,81 @@ V("C14-configured-mode-applied-eq-form","C14",SH+"control.go","""	if m := s.GetM
 	if m == mode.ReadWrite {
 		return nil
 	}
-	if err := s.SetMode(m); err != nil {
+	if err := s.applyConfiguredMode(m); err != nil {
 		return fmt.Errorf("could not set configured mode %s: %w", m, err)
 	}
 
 	return nil""",expect="silent")
+V("C14-revert-fix-configured-storage-stays-writable","C14",SH+"control.go","""		if err := s.applyConfiguredMode(m); err != nil {""","""		if err := s.SetMode(m); err != nil {""",rule="C14.R5")
+V("C14-configured-storage-reopen-dropped","C14",SH+"mode.go","""	if m.ReadOnly() {
+		// setMode skips the storage of a shard that is already in m, while
+		// the storage was opened for writing
+		if err := s.reopenStorage(m); err != nil {
+			return err
+		}
+	}
+
+	return s.setMode(m)""","""	return s.setMode(m)""",rule="C14.R5")
+V("C14-configured-storage-reopen-error-ignored","C14",SH+"mode.go","""		if err := s.reopenStorage(m); err != nil {
+			return err
+		}
+	}
+
+	return s.setMode(m)""","""		_ = s.reopenStorage(m)
+	}
+
+	return s.setMode(m)""",rule="C14.R5")
+V("C14-configured-storage-reopened-only-for-degraded","C14",SH+"mode.go","""	if m.ReadOnly() {
+		// setMode skips the storage of a shard that is already in m, while""","""	if m.NoMetabase() {
+		// setMode skips the storage of a shard that is already in m, while""",rule="C14.R5")
+V("C14-configured-storage-reopened-inline","C14",SH+"control.go","""		if err := s.applyConfiguredMode(m); err != nil {
+			return fmt.Errorf("could not set configured mode %s: %w", m, err)
+		}""","""		if m.ReadOnly() {
+			if err := s.reopenStorage(m); err != nil {
+				return fmt.Errorf("could not set configured mode %s: %w", m, err)
+			}
+		}
+		if err := s.SetMode(m); err != nil {
+			return fmt.Errorf("could not set configured mode %s: %w", m, err)
+		}""",expect="silent")
+V("C14-configured-storage-reopened-unconditionally","C14",SH+"mode.go","""	if m.ReadOnly() {
+		// setMode skips the storage of a shard that is already in m, while
+		// the storage was opened for writing
+		if err := s.reopenStorage(m); err != nil {
+			return err
+		}
+	}
+
+	return s.setMode(m)""","""	if err := s.reopenStorage(m); err != nil {
+		return err
+	}
+
+	return s.setMode(m)""",expect="silent")
+V("C43-reopen-helper-skips-when-unchanged","C43",SH+"mode.go","""func (s *Shard) reopenStorage(m mode.Mode) error {
+	err := s.blobStor.Close()""","""func (s *Shard) reopenStorage(m mode.Mode) error {
+	if s.info.Mode == m {
+		return nil
+	}
+	err := s.blobStor.Close()""",rule="C43.R5")
+V("C43-storage-switch-skips-for-read-write","C43",SH+"mode.go","""	if s.info.Mode == m {
+		return nil
+	}
+
+	return s.reopenStorage(m)""","""	if s.info.Mode == m || !m.ReadOnly() {
+		return nil
+	}
+
+	return s.reopenStorage(m)""",rule="C43.R5")
+V("C43-storage-switch-reopen-error-dropped","C43",SH+"mode.go","""	return s.reopenStorage(m)
+}""","""	_ = s.reopenStorage(m)
+	return nil
+}""",rule="C43.R5")
+V("C43-storage-switch-inlined-again","C43",SH+"mode.go","""	return s.reopenStorage(m)
+}""","""	if err := s.reopenStorage(m); err != nil {
+		return err
+	}
+	return nil
+}""",expect="silent")
 CM="pkg/local_object_storage/blobstor/common/storage.go"
 V("C11-revert-fix-from-zero-of-empty","C11",CM,"		if r.First != 0 && r.First >= payloadLen {","		if r.First >= payloadLen {",rule="C11.R8")
 V("C11-zero-pair-refused-on-empty","C11",CM,"""			if off != 0 {
